@@ -122,7 +122,7 @@ void rec_transform(int stream, uint32_t ordinal, const uint8_t in[16], uint8_t o
 RecOut run_recorder(const bytes &input, bool ispadding, const PipeCfg &pc);
 
 // ---- pure functions ----
-bytes hash_string(int alg, const bytes &m);
+bytes hash_string(int alg, const bytes &m, int addr_off = 0); // addr_off 0..7: the message starts that many bytes behind an 8-aligned address
 // the same hasher object first digests `decoy`, then `m` (the object must reset itself between messages)
 // the digest is written into the message buffer itself, at offset out_off (b = H(b) chains, digest over the tail ...)
 bytes hash_string_inplace(int alg, const bytes &m, size_t out_off);
